@@ -363,8 +363,8 @@ func runCoroFree(ctx *core.RunCtx) {
 	src, feat := genCoroScript(ctx.Gen, false)
 	ctx.Sample = src
 	zero := core.ReplayTape(nil)
-	ev0, out0, leak0, s0 := execScript(src, zero, 20000)
-	ev1, out1, leak1, s1 := execScript(src, ctx.Sch, 20000)
+	ev0, out0, leak0, s0 := execScript(src, zero, 2000000)
+	ev1, out1, leak1, s1 := execScript(src, ctx.Sch, 2000000)
 	ctx.Count("sched.steps", int64(s1.Steps))
 	ctx.Count("sched.decisions", int64(s1.Switches))
 	ctx.Count("fault.handoff-order(non-default decisions)", int64(s1.NonDefault))
